@@ -326,8 +326,16 @@ void InterfaceMakerPythonSimple::write_function_instance(ostream &out, Interface
       parameter_list += ", &" + param_name;
       extra_convert += " PyObject *" + param_name + "_uint = PyNumber_Long(" + param_name + ");";
       extra_param_check += "|| (" + param_name + "_uint == nullptr)";
-      pexpr_string = "(unsigned int)PyLong_AsUnsignedLong(" + param_name + "_uint)";
+      // Cast to the parameter's own type: an unsigned long is wider than an
+      // unsigned int.
+      pexpr_string = "(" + type->get_local_name(&parser) + ")PyLong_AsUnsignedLong(" + param_name + "_uint)";
       extra_cleanup += " Py_XDECREF(" + param_name + "_uint);";
+
+    } else if (TypeManager::is_long(type)) {
+      // A (signed) long does not fit the "i" format.
+      out << "long " << param_name;
+      format_specifiers += "l";
+      parameter_list += ", &" + param_name;
 
     } else if (TypeManager::is_integer(type)) {
       out << "int " << param_name;
